@@ -247,6 +247,7 @@ def session(args):
 _WORK = None
 _POOL = None
 _SESS = {}
+_BUDGET = [int(os.environ.get("VERIF_ORACLE_BUDGET", "14"))]
 
 
 class Infra(Exception):
@@ -361,6 +362,11 @@ def oracle(case):
     """case = {cfg: {...}, kills: [ {at, when, frac?}, … ]} in real op coordinates. Property on the real code only, with
     REAL process kills (os._exit)."""
     if "kills" not in case:
+        return None
+    # every call costs two to four fresh processes: the re-examination of disagreements and the shrinking done by vcheck
+    # get a budget per check run (a replay needs one call)
+    _BUDGET[0] -= 1
+    if _BUDGET[0] < 0:
         return None
     cfg = case["cfg"]
     key = json.dumps(cfg, sort_keys=True)
